@@ -76,6 +76,7 @@ type eWorld struct {
 	obs    []eObs
 	pubs   map[string]map[int][][]byte // digest hex -> node -> published byte strings (in order)
 	shape  string
+	late   bool // a node missed the 40 s deadline before: later requests of this world wait 6 s only
 }
 
 func eKey(r *vrng) *ecdsa.PrivateKey {
@@ -564,6 +565,9 @@ func (w *eWorld) request(h *vHarness, tag string, gc vaa.ChainID, ga vaa.Address
 	// ---- wait until every node has broadcast a quorum VAA for every injected message
 	quorum := len(w.gs.Keys)*2/3 + 1
 	deadline := time.Now().Add(40 * time.Second)
+	if w.late {
+		deadline = time.Now().Add(6 * time.Second)
+	}
 	for {
 		missing := 0
 		w.mu.Lock()
@@ -576,7 +580,11 @@ func (w *eWorld) request(h *vHarness, tag string, gc vaa.ChainID, ga vaa.Address
 			}
 		}
 		w.mu.Unlock()
-		if missing == 0 || time.Now().After(deadline) {
+		if missing == 0 {
+			break
+		}
+		if time.Now().After(deadline) {
+			w.late = true
 			break
 		}
 		for i, n := range w.nodes {
@@ -662,7 +670,7 @@ func (w *eWorld) request(h *vHarness, tag string, gc vaa.ChainID, ga vaa.Address
 			}
 			run, newSeq, probs := h.c.execute(f, eEntry[m.Kind], b, ct, skip)
 			for _, pr := range probs {
-				mon.add("ral:e2e:"+m.Kind, "%s", pr)
+				mon.add("ral:e2e:"+pr, "%s", pr)
 			}
 			if first {
 				first = false
